@@ -202,6 +202,10 @@ def apply(o, name, a):
         return _canon(getattr(f, name))
     if name == "idxs_seq":
         return _canon(f.idxs_seq)
+    if name == "georef":   # where the raster is: coefficients, bounds and the centre of the first and last cell
+        xs, ys = f.xy(np.array([0, f.size - 1]))
+        return _canon((tuple(float(v) for v in tuple(f.transform)[:6]), bool(f.latlon), np.asarray(f.bounds, dtype=np.float64),
+                       np.asarray(xs, dtype=np.float64), np.asarray(ys, dtype=np.float64)))
     if name == "main_upstream":
         return _canon(f.main_upstream(uparea=arr(a["uparea"], np.float64)))
     if name == "stream_order":
@@ -322,6 +326,7 @@ def run_history(spec, table=None):
                       ("stream_order", {"type": "strahler", "mask": None}), ("upstream_area", {})]
             if spec["cls"] == "raster":
                 probes.append(("upstream_area_unit", {"unit": "m2"}))
+                probes += [("georef", {})]
             for pn, pa in probes:
                 g1, g2 = safe_apply(o, pn, pa), safe_apply(t, pn, pa)
                 if g1 != g2:
